@@ -24,6 +24,7 @@ import (
 	"github.com/AdguardTeam/urlfilter/filterlist"
 	"github.com/AdguardTeam/urlfilter/filterutil"
 	"github.com/AdguardTeam/urlfilter/rules"
+	"golang.org/x/net/publicsuffix"
 )
 
 func init() {
@@ -31,6 +32,104 @@ func init() {
 	gens["c13.srcmemo"] = genSrcMemo
 	gens["c04.collide"] = genC04Collide
 	gens["c13.tail"] = genC13Tail
+	gens["scale.hist"] = genScaleHist
+	gens["c17.memo"] = genC17Memo
+}
+
+// genScaleHist: several hundred rules sharing ONE 5-byte shortcut (the histogram of the shortcuts table counts
+// that bucket up) -- every rule must still be found by the engine when its own request comes.
+func genScaleHist(r *rng, _ int, w *bufio.Writer) {
+	key := pick(r, []string{"abcde", "track", "/ads/"})
+	n := 290 + r.n(40)
+	var sb strings.Builder
+	for i := 0; i < n; i++ {
+		fmt.Fprintf(&sb, "%s$domain=site%d.example\n", key, i)
+	}
+	s, err := filterlist.NewRuleStorage([]filterlist.RuleList{&filterlist.StringRuleList{ID: 1, RulesText: sb.String()}})
+	if err != nil {
+		panic(err)
+	}
+	e := urlfilter.NewNetworkEngine(s)
+	lost, first := 0, ""
+	for i := 0; i < n; i++ {
+		q := rules.NewRequest("http://cdn.example/x/"+key+"/1.js", fmt.Sprintf("http://site%d.example/", i), rules.TypeScript)
+		want := fmt.Sprintf("%s$domain=site%d.example", key, i)
+		found := false
+		for _, f := range e.MatchAll(q) {
+			if f.RuleText == want {
+				found = true
+			}
+		}
+		if !found && mustRule(want).Match(q) {
+			lost++
+			if first == "" {
+				first = want
+			}
+		}
+	}
+	fmt.Fprintf(w, "assert scale.hist %d = %s ## %d rules sharing the shortcut %q: %d matching rules not reported by the engine; first: %s\n",
+		n, wbool(lost == 0), n, key, lost, noteStr(first))
+}
+
+// c17Collisions: pairs of hostnames with equal FastHash whose registrable domains have DIFFERENT lengths.
+var (
+	c17CollOnce  sync.Once
+	c17CollCache [][2]string
+)
+
+func c17Collisions() [][2]string {
+	c17CollOnce.Do(func() {
+		seen := map[uint32]string{}
+		x := uint64(1717)
+		letters := "abcdefghijklmnopqrstuvwxyz"
+		word := func(k int) string {
+			b := make([]byte, k)
+			for i := range b {
+				x = x*6364136223846793005 + 1442695040888963407
+				b[i] = letters[(x>>33)%26]
+			}
+
+			return string(b)
+		}
+		for i := 0; i < 900000 && len(c17CollCache) < 10; i++ {
+			h := word(3) + "." + word(4) + ".example.org" // eTLD+1 = example.org
+			seen[filterutil.FastHash(h)] = h
+		}
+		for i := 0; i < 900000 && len(c17CollCache) < 10; i++ {
+			h := word(8) + "example.org" // eTLD+1 = the whole name
+			if o, ok := seen[filterutil.FastHash(h)]; ok {
+				c17CollCache = append(c17CollCache, [2]string{o, h})
+			}
+		}
+	})
+
+	return c17CollCache
+}
+
+// genC17Memo: consecutive lookups of different hostnames with the same 32-bit hash.
+func genC17Memo(r *rng, n int, w *bufio.Writer) {
+	cs := c17Collisions()
+	for i := 0; i < n && len(cs) > 0; i++ {
+		p := pick(r, cs)
+		a, b := p[0], p[1]
+		if r.chance(1, 2) {
+			a, b = b, a
+		}
+		ref := func(h string) string {
+			d, err := publicsuffix.EffectiveTLDPlusOne(h)
+			if err != nil {
+				return h
+			}
+
+			return d
+		}
+		q := rules.NewRequest("http://"+a+"/x", "https://"+b+"/y", rules.TypeScript)
+		h1 := rules.NewRequestForHostname(a)
+		h2 := rules.NewRequestForHostname(b)
+		ok := q.Domain == ref(a) && q.SourceDomain == ref(b) && q.ThirdParty == (ref(a) != ref(b)) && h1.Domain == ref(a) && h2.Domain == ref(b)
+		fmt.Fprintf(w, "assert c17.memo %s %s = %s ## consecutive lookups of %q and %q (same 32-bit hash): domains %q/%q third-party=%v; hostname requests %q/%q; reference %q/%q\n",
+			wb(a), wb(b), wbool(ok), a, b, q.Domain, q.SourceDomain, q.ThirdParty, h1.Domain, h2.Domain, ref(a), ref(b))
+	}
 }
 
 // genC13Tail: a FILE-backed list whose last line has no final newline; rules of the list are retrieved in a
